@@ -1,6 +1,6 @@
 (* C01 — every libwayland debug line decodes to exactly the message it denotes. *)
 From WD Require Import Base Wire Decode Render.
-From WD Require Import DecodeProofs DecodeArgs DecodeSplit DecodeHeader DecodeRoundTrip.
+From WD Require Import DecodeProofs DecodeArgs DecodeSplit DecodeHeader DecodeRoundTrip DecodeSound.
 Open Scope Z_scope.
 
 (* every line libwayland's printer can emit for a message in the domain of C01 (both object
@@ -37,3 +37,29 @@ Example C01_ex :
   message (render (mkDialect true true true true false) m) = Ok (denote (mkDialect true true true true false) m) /\
   message (render (mkDialect false false false false true) m) = Ok (denote (mkDialect false false false false true) m).
 Proof. vm_compute. repeat split. Qed.
+
+(* ---- the converse (Proofs/DecodeSound.v): "a line that contains no such message is never reported as one" ----------
+   Whenever the decoder reports a message, the line IS some text followed by
+       [ ws digits (.|,) digits ws ]  ( {queue})?  ( <conn>)?  ("  -> " | " ")  type (@|#) digits . name ( args )
+   with the closing parenthesis as the last character of the line, and every reported field is that piece of the
+   text: the connection tag (or PARSED), the direction, the interface, the id (the decimal value of the digits, never
+   0), the message name, the time (the digits read as milliseconds) and the arguments (the argument text split at
+   top-level ", " and classified one by one).  Nothing is invented and no other line yields a message. *)
+Theorem C01_reported_only_if_present : forall raw cid pm, message raw = Ok (cid, pm) ->
+  exists p, raw = text_of p /\ pieces_ok p /\
+    cid = (match pc_conn p with Some c => c | None => s2l "PARSED" end) /\
+    p_sent pm = pc_sent p /\ p_type pm = Some (pc_type p) /\ p_id pm = Z.of_N (dec_value (pc_id p)) /\
+    p_name pm = pc_name p /\ ts_micros (pc_ip p) (pc_fp p) = Ok (p_time pm) /\
+    mapM argument (split_args (pc_args p)) = Ok (p_args pm) /\
+    (p_id pm <> 0)%Z.
+Proof. exact message_sound. Qed.
+Print Assumptions C01_reported_only_if_present.
+
+Theorem C01_no_shape_no_message : forall raw, (forall p, pieces_ok p -> raw <> text_of p) -> forall r, message raw <> Ok r.
+Proof. exact no_shape_no_message. Qed.
+Print Assumptions C01_no_shape_no_message.
+
+(* non-vacuity: a line that is reported, its pieces, and a bracketed line that is not *)
+Example C01_reports_a_message := message_reports_a_message.
+Example C01_accepted_line_has_the_shape := accepted_line_has_the_shape.
+Example C01_rejects_other_text := message_rejects_other_text.
